@@ -481,7 +481,9 @@ func (mf *MurexFuncs) Dump() any {
 
 // UpdateMap is used for auto-completions. It takes an existing map and updates it's values rather than copying data
 func (mf *MurexFuncs) UpdateMap(m map[string]bool) {
+	mf.mutex.Lock()
 	for name := range mf.fn {
 		m[name] = true
 	}
+	mf.mutex.Unlock()
 }
